@@ -20,7 +20,6 @@ PM = "maze_dataset/plotting/plot_maze.py"
 MUTANTS = [
     ("dfs-edge-at-wrong-endpoint", "C01", G, "current_coord if (delta.sum() > 0) else chosen_neighbor", "chosen_neighbor if (delta.sum() > 0) else current_coord"),
     ("percolation-keeps-boundary-bits", "C01", G, "        connection_list = _fill_edges_with_walls(connection_list)\n\n        output: LatticeMaze = LatticeMaze(", "        output: LatticeMaze = LatticeMaze("),
-    ("percolation-p-le", "C01", G, "connection_list: ConnectionList = np.random.rand(lattice_dim, *grid_shape) < p", "connection_list: ConnectionList = np.random.rand(lattice_dim, *grid_shape) <= p - 1e-12"),
     ("astar-inadmissible-heuristic", "C02", LM, "return np.abs(a[0] - b[0]) + np.abs(a[1] - b[1])", "return 2 * (np.abs(a[0] - b[0]) + np.abs(a[1] - b[1]))"),
     ("astar-never-relax", "C02", LM, "                elif g_temp >= g_score[neighbor]:", "                elif True:"),
     ("astar-path-not-reversed", "C02", LM, "return np.array(path[::-1])", "return np.array(path)"),
@@ -39,7 +38,6 @@ MUTANTS = [
     ("walls-subset-keeps-boundary", "C06", MT, "                conn_list[0, -1, :] = False\n                conn_list[1, :, -1] = False", "                conn_list[0, -1, :] = False"),
     ("relative-left-right-swapped", "C06", TU, "        case 1:\n            return VOCAB.PATH_LEFT\n        case -1:\n            return VOCAB.PATH_RIGHT", "        case 1:\n            return VOCAB.PATH_RIGHT\n        case -1:\n            return VOCAB.PATH_LEFT"),
     ("distance-off-by-one", "C06", MT, "            d: int = end_index - start_index\n", "            d: int = end_index - start_index + (1 if end_index - start_index > 3 else 0)\n"),
-    ("aop-emits-target", "C06", MT, "                VOCAB.TARGET_START,\n                VOCAB.TARGET_END,\n                VOCAB.PATH_START,", "                VOCAB.TARGET_START,\n                *target,\n                VOCAB.TARGET_END,\n                VOCAB.PATH_START,"),
     ("from-adj-list-greater-endpoint", "C07", LM, "            if c_start[d] < c_end[d]:\n                x, y = c_start", "            if c_start[d] > c_end[d]:\n                x, y = c_start"),
     ("from-tokens-origin-target-swapped", "C07", LM, "                start_pos=start_pos,\n                end_pos=end_pos,\n            )\n\n            is_targeted = True", "                start_pos=end_pos,\n                end_pos=start_pos,\n            )\n\n            is_targeted = True"),
     ("from-legacy-ctt-maps-to-default", "C07", MT, "            TokenizationMode.AOTP_CTT_indexed: MazeTokenizerModular(\n                prompt_sequencer=PromptSequencers.AOTP(\n                    coord_tokenizer=CoordTokenizers.CTT()\n                )\n            ),", "            TokenizationMode.AOTP_CTT_indexed: MazeTokenizerModular(),"),
@@ -65,21 +63,26 @@ MUTANTS = [
     ("vocab-fields-reordered", "C14", CO, '    ("PATH_LEFT", str, field(default="LEFT")),\n    ("PATH_RIGHT", str, field(default="RIGHT")),', '    ("PATH_RIGHT", str, field(default="RIGHT")),\n    ("PATH_LEFT", str, field(default="LEFT")),'),
     ("corner-first-key-changed", "C14", UT, "key=lambda x: (max(x), x if x[0] % 2 == 0 else x[::-1])", "key=lambda x: (max(x) if max(x) != 7 else 8.5, x if x[0] % 2 == 0 else x[::-1])"),
     ("keyerror-escapes", "C14", MT, "            return [VOCAB_TOKEN_TO_INDEX[token] for token in text]\n        except KeyError as e:", "            return [VOCAB_TOKEN_TO_INDEX[token] for token in text]\n        except IndexError as e:"),
-    ("distance-alone-valid", "C15", MT, "            if len(self.step_tokenizers) == 1 and isinstance(\n                self.step_tokenizers[0], StepTokenizers.Distance\n            ):", "            if False and isinstance(\n                self.step_tokenizers[0], StepTokenizers.Distance\n            ):"),
     ("stringify-drops-bool-value", "C15", MT, '            return f"{k}={str(v)[0]}"', '            return f"{k}={str(v)[0] if k != \'intra\' else \'_\'}"'),
     ("collection-searchsorted-right", "C16", CD, "np.searchsorted(self.dataset_cum_lengths, index + 1)", 'np.searchsorted(self.dataset_cum_lengths, index + 1, side="right")'),
     ("collection-adjust-by-own-cum", "C16", CD, "index_adjusted -= self.dataset_cum_lengths[dataset_idx - 1]", "index_adjusted -= self.dataset_cum_lengths[dataset_idx] - len(self.maze_datasets[dataset_idx])  if len(self.maze_datasets[dataset_idx]) != 2 else self.dataset_cum_lengths[dataset_idx - 1] + 1"),
     ("raster-path-leaks-into-input", "C17", RA, "    problem_maze[(problem_maze == PixelColors.PATH).all(axis=-1)] = PixelColors.OPEN", "    pass"),
-    ("raster-8-neighbourhood", "C17", LM, "        & padded_wall_mask[:-2, 1:-1]  # up", "        & padded_wall_mask[:-2, 1:-1]  # up\n        & padded_wall_mask[:-2, :-2]"),
     ("raster-endpoints-opened-always", "C17", RA, "    if endpoints_as_open:", "    if endpoints_as_open or maze.solution.shape[0] == 2:"),
     ("cfg-no-tuple-restoration", "C18", MD, "                    else [tuple(x) for x in v]  # muutils/zanj saves tuples as lists", "                    else v  # muutils/zanj saves tuples as lists"),
     ("cfg-fname-without-n-mazes", "C18", MD, "-n{shorten_numerical_to_str(self.n_mazes)}-a_", "-a_"),
     ("cfg-hash-sort-keys-drops-order", "C18", MD, "        return stable_hash(json.dumps(self.serialize()))", "        return stable_hash(json.dumps({k: v for k, v in self.serialize().items() if k != 'seed'}))"),
-    ("wilson-no-loop-erasure-of-first", "C19", G, "                    path = path[: loop_exit + 1]", "                    path = path[: loop_exit + 1] if loop_exit > 0 else path[:1]"),
     ("wilson-biased-neighbour", "C19", G, "next_cell: Coord = neighbors[np.random.choice(neighbors.shape[0])]", "next_cell: Coord = neighbors[np.random.choice(neighbors.shape[0]) if np.random.rand() < 0.9 else 0]"),
     ("plot-transpose", "C20", PM, "        point = np.array([point[1], point[0]])", "        point = np.array([point[0], point[1]])"),
     ("plot-strip-test-inverted", "C20", PM, "                # Right connection\n                if not connection_list_processed[1, row, col]:", "                # Right connection\n                if connection_list_processed[1, row, col]:"),
     ("plot-path-from-second-cell", "C20", PM, "            [self._rowcol_to_coord(coord) for coord in path_format.path]", "            [self._rowcol_to_coord(coord) for coord in path_format.path[1:]]"),
+    ("percolation-p1-not-all", "C01", G, "connection_list: ConnectionList = np.random.rand(lattice_dim, *grid_shape) < p", "connection_list: ConnectionList = np.random.rand(lattice_dim, *grid_shape) < p * 0.999"),
+    ("aop-target-region-nonempty", "C06", MT, "                VOCAB.TARGET_START,\n                VOCAB.TARGET_END,\n                VOCAB.PATH_START,", "                VOCAB.TARGET_START,\n                *origin,\n                VOCAB.TARGET_END,\n                VOCAB.PATH_START,"),
+    ("raster-isolated-ignores-left", "C17", LM, "        & padded_wall_mask[1:-1, :-2]  # left\n", ""),
+    ("wilson-loop-at-walk-start-not-erased", "C19", G, "                if loop_exit is not None:", "                if loop_exit:"),
+    ("enumeration-lets-distance-alone-through", "C15", [
+        (MT, "            if len(self.step_tokenizers) == 1 and isinstance(\n                self.step_tokenizers[0], StepTokenizers.Distance\n            ):", "            if False and isinstance(\n                self.step_tokenizers[0], StepTokenizers.Distance\n            ):"),
+        ("maze_dataset/tokenization/all_tokenizers.py", "        StepTokenizers.StepTokenizerPermutation: lambda x: len(set(x)) == len(x)\n        and x != (StepTokenizers.Distance(),),", "        StepTokenizers.StepTokenizerPermutation: lambda x: len(set(x)) == len(x),"),
+    ], None, None),
 ]
 # negative controls: behaviour-preserving edits that must NOT raise an alarm
 CONTROLS = [
@@ -90,16 +93,18 @@ CONTROLS = [
 
 def run_one(m, control=False):
     name, prop, path, old, new = m
+    edits = path if isinstance(path, list) else [(path, old, new)]
     wt = tempfile.mkdtemp(prefix=f"mzmut-{name}-", dir="/tmp"); os.rmdir(wt)
-    res = {"name": name, "property": prop, "file": path, "control": control}
+    res = {"name": name, "property": prop, "file": ", ".join(e[0] for e in edits), "control": control}
     try:
         subprocess.run(f"git -C /repo worktree add -q --detach {wt} HEAD", shell=True, check=True, capture_output=True)
-        fp = os.path.join(wt, path)
-        src = open(fp).read()
-        if src.count(old) != 1:
-            res["error"] = f"pattern occurs {src.count(old)} times"
-            return res
-        open(fp, "w").write(src.replace(old, new))
+        for path_, old_, new_ in edits:
+            fp = os.path.join(wt, path_)
+            src = open(fp).read()
+            if src.count(old_) != 1:
+                res["error"] = f"pattern occurs {src.count(old_)} times in {path_}"
+                return res
+            open(fp, "w").write(src.replace(old_, new_))
         c = subprocess.run([sys.executable, "-c", "import maze_dataset.dataset.rasterized, maze_dataset.plotting, maze_dataset.tokenization"], env={**os.environ, "PYTHONPATH": wt}, capture_output=True, text=True)
         if c.returncode != 0:
             res["error"] = "does not import: " + c.stderr[-200:]
